@@ -166,7 +166,20 @@ func sweepQueries(t *testing.T, d *DB, q any) {
 					continue
 				}
 				var pe *pgconn.PgError
-				if errors.As(err, &pe) && name == "GetLatestEonForKeyperConfig" {
+				if errors.As(err, &pe) {
+					// plain INSERTs legitimately hit their primary key when repeated
+					if round == 1 && pe.Code == "23505" && methodRank(name) == 0 {
+						continue
+					}
+					// second identical call: CTE 1 inserts nothing, ARRAY_AGG of no rows is NULL and
+					// commitment.tx_hashes is NOT NULL -- PostgreSQL raises the same error
+					if round == 1 && pe.Code == "23502" && name == "InsertMultipleTransactionsAndUpsertCommitment" {
+						continue
+					}
+				} else if name == "GetCommitmentByTxHash" && strings.Contains(err.Error(), "cannot convert") {
+					// sqlc generated a []string argument for "$1 = ANY(text[])"; the server (like
+					// PostgreSQL) describes $1 as text, so pgx refuses to encode the slice. The SQL
+					// itself is exercised with a string argument in TestRepoPrimev.
 					continue
 				}
 				t.Errorf("round %d: %s(%v): %v", round, name, args[1:], err)
